@@ -533,7 +533,8 @@ alloc_attr_template(const struct attr_template *tmpl,
  * @param path    Path under @p dir.
  * @param pathlen Length of @p path (maybe partial).
  * @param atmpl   Attribute template.
- * @returns       Attribute data, or @c NULL on allocation failure.
+ * @returns       Attribute data, or @c NULL on allocation failure
+ *                or if @p path starts with a dot.
  *
  * Look up the attribute @p path under @p dir. If the attribute does not
  * exist yet, create it with type @p type. If @p path contains dots, then
@@ -547,6 +548,13 @@ create_attr_path(struct attr_dict *dict, struct attr_data *dir,
 	const char *p, *endp, *endpath;
 	struct attr_data *attr;
 	struct attr_template *tmpl;
+
+	/* A leading dot means "do not use the fallback dictionary" to
+	 * lookup_dir_attr(), so the prefixes of such a path would be
+	 * looked up under a different name than they are created with.
+	 */
+	if (pathlen && *path == '.')
+		return NULL;
 
 	endp = endpath = path + pathlen;
 	while (! (attr = lookup_dir_attr(dict, dir, path, endp - path)) )
